@@ -413,13 +413,25 @@ def run_call(rec, what, label, build, fn, case):
                     return
     if isinstance(out, (DataFrame, np.ndarray)):
         rec.state(snap(out))
-    # (c) scribble over the result -> operands unchanged
+    # (c) scribble over the result -> operands unchanged, and the SAME call made again returns what it returned the
+    #     first time (a result handed out from a cache would now carry the scribbles)
+    first = [snap_array(a) for a in outs]
     for oa in outs:
         if oa.flags.writeable:
             scribble(oa)
     if [snap(x) for x in operands] != before:
         rec.violation(what, "write-through-result", case, "an in-place edit of the result was observed on an operand")
         return
+    if ".sample" not in what and "write_" not in what and "read_" not in what:
+        try:
+            again = [snap_array(a) for a in arrays_of(fn(recv, args))]
+        except Exception as e:
+            rec.violation(what, "second-call-raised", case, f"the same call made a second time raised {type(e).__name__}: {e}")
+            return
+        if again != first:
+            rec.violation(what, "second-result-differs", case, "the same call on the same unchanged operands returned something else the second time "
+                          "(after the first result had been edited in place)")
+            return
     # converse: fresh run, scribble over operands -> result unchanged
     recv2, args2 = build()
     out2 = fn(recv2, args2)
